@@ -589,7 +589,7 @@ def mixed_case(draw, tier="quick"):
             "bcast_first": draw(st.booleans())}
 
 
-def run_mixed(c):
+def mixed_columns(c):
     """is_collinear / is_concurrent with four arguments and is_coplanar with five: every collection position has its own exact
     truth value (all dependent / already the first n independent / only a later argument off)"""
     what = c["what"]
@@ -600,18 +600,23 @@ def run_mixed(c):
     truth = []
     for ps in c["pos"]:
         v = ps["v"]
-        base = [np.array([int(x / 1) for x in v[i * n : i * n + n]], float) for i in range(d)]
-        for b in base:
-            b[-1] = 1 if what != "concurrent2" else b[-1]
-        if X.rank([[Fraction(int(x)) for x in b] for b in base]) < d:
-            raise Skip("dependent base")
+        if len(v) < 8 + n:
+            raise Skip("malformed")
+        for attempt in range(6):  # deterministic repair of dependent draws instead of rejecting them
+            base = [np.array([int(x / 1) for x in v[i * n : i * n + n]], float) for i in range(d)]
+            off = np.array([int(x) for x in v[8 : 8 + n]], float)
+            for i, b in enumerate(base):
+                b[i] += attempt
+                b[-1] = 1 if what != "concurrent2" else b[-1]
+            off[d - 1] -= attempt
+            if what != "concurrent2":
+                off[-1] = 1
+            if X.rank([[Fraction(int(x)) for x in b] for b in base + [off]]) == n:
+                break
+        else:
+            raise Skip("dependent draw")
         dep1 = sum((i + 1) * b for i, b in enumerate(base))  # in the span
         dep2 = sum((ps["c"] if i == 0 else 1) * b for i, b in enumerate(base))
-        off = np.array([int(x) for x in v[8 : 8 + n]], float)
-        if what != "concurrent2":
-            off[-1] = 1
-        if X.rank([[Fraction(int(x)) for x in b] for b in base + [off]]) < n:
-            raise Skip("accidentally dependent")
         mode = ps["mode"]
         if mode == "all":
             els, t = base + [dep1, dep2], True
@@ -622,6 +627,11 @@ def run_mixed(c):
         for j in range(nargs):
             cols[j].append(els[j])
         truth.append(t)
+    return what, cols, truth
+
+
+def run_mixed(c):
+    what, cols, truth = mixed_columns(c)
     cls = PointCollection if what != "concurrent2" else LineCollection
     fn = {"collinear2": is_collinear, "concurrent2": is_concurrent, "coplanar3": is_coplanar}[what]
     args = [cls(np.array(col)) for col in cols]
